@@ -211,7 +211,9 @@ def compare_trees(inode, mnode_unused, ctx, base, depth=0, X=None, cub=None, pro
         col = [float(X[i, nd["axis"]]) for i in pts]
         lo, hi = min(col), max(col)
         mid = lo + (hi - lo) / 2
-        if nd["mid"] != mid:
+        # single-precision build data: the midpoint is then a single-precision number (rounding, not a different rule)
+        slack = 2.0 ** -22 * max(abs(lo), abs(hi)) if base.get("build_dtype") == "float32" else 0.0
+        if abs(nd["mid"] - mid) > slack:
             ctx.violation("C08/build/midpoint", "depth %d axis %d: split at %r, the midpoint of the range of the node's points is %r" % (nd["depth"], nd["axis"], nd["mid"], mid), **base)
             return None
     ref_root, _ = K.build(X, cub, prop)
@@ -321,12 +323,34 @@ def run_case(case, ctx):
             else:
                 Y = X[rng.integers(0, n, size=n)] + rng.normal(0, 0.3, size=(n, d)) * (X.std(axis=0) + 1e-12)
             fills.append((np.ascontiguousarray(Y, dtype=float), str(rng.choice(["a", "a", "b", "c", "build"])), bool(rng.random() < 0.3)))
+        # the build data may arrive with a narrower dtype than later batches (whole-number records, single-precision
+        # sensors); X keeps the same values as float64 for the oracle
+        r = rng.random()
+        amax = float(np.abs(X).max()) if X.size else 0.0
+        if amax * 10 >= 2.0 ** 52 or (amax and amax < 1e-30):
+            r = 1.0  # outside what the narrow dtypes can hold: not a dtype question
+        if r < 0.12:
+            bdt = "int64"
+            X = np.round(X * float(rng.choice([1, 3, 10])))
+        elif r < 0.2:
+            bdt = "float32"
+            X = X.astype(np.float32).astype(float)
+        elif r < 0.26:
+            bdt = "uint8"
+            lo_, hi_ = X.min(axis=0), X.max(axis=0)
+            X = np.round((X - lo_) / (hi_ - lo_ + 1e-12) * 255)
+        if r < 0.26:
+            fills = [(Y if len(Y) == 0 or k_ % 2 else np.ascontiguousarray(X[rng.integers(0, n, size=len(Y))] + rng.normal(0, 0.7, size=(len(Y), d))), t_, r_)
+                     for k_, (Y, t_, r_) in enumerate(fills)]
+    bdt = locals().get("bdt") or case.get("literal", {}).get("build_dtype")
     ctx.count("family:" + fam)
+    if bdt:
+        ctx.count("build_dtype:" + bdt)
     n, d = X.shape
-    base = dict(data=X.tolist() if X.size <= 400 else "omitted(%dx%d)" % X.shape, count_ubound=cub, prop=prop, family=fam)
+    base = dict(data=X.tolist() if X.size <= 400 else "omitted(%dx%d)" % X.shape, count_ubound=cub, prop=prop, family=fam, build_dtype=bdt)
     P = monitored_class()(count_ubound=cub, cutpoint_proportion_lbound=prop)
     try:
-        P.build(X.copy())
+        P.build(X.astype(bdt) if bdt else X.copy())
     except PostBroken:
         kind, msg = P._verif_last
         ctx.violation("C08/build/" + kind, "after build: " + msg, **base)
